@@ -181,6 +181,32 @@ def blank_ident(P, R):
         if s.ev['k'] == 'bitset' and s.ev.get('bit') == 'IAUTH_EMPTY_IDENT':
             n += 1
             R.ob('C03.GRD.3', True, s, 'otherwise the blank ident is recorded for the user-info handler to complete', key='blank-ident:recorded', nontrivial=False)
+    if n == 0:
+        # the flag chosen into a local: `flag = (ident || <user info arrived>) ? GOT_IDENT : EMPTY_IDENT; set(flag)`
+        for s in u.sites():
+            be = s.ev.get('bitexpr') if s.ev['k'] == 'bitset' and core.is_req_flags(s.ev.get('set')) else None
+            if not (isinstance(be, dict) and be.get('k') == 'var'):
+                continue
+            d = u.single_def(be['name'])
+            v = d[1] if d else None
+            if not (isinstance(v, dict) and v.get('k') == 'cond' and {(v['t'] or {}).get('name'), (v['f'] or {}).get('name')} == {'IAUTH_GOT_IDENT', 'IAUTH_EMPTY_IDENT'}):
+                continue
+            c = v['c']
+            got_when_true = (v['t'] or {}).get('name') == 'IAUTH_GOT_IDENT'
+            disj = []
+            def flat(e):
+                if isinstance(e, dict) and e.get('k') == 'bin' and e.get('op') == ('||' if got_when_true else '&&'):
+                    flat(e['l']); flat(e['r'])
+                else:
+                    disj.append(e)
+            flat(c)
+            from ..model import rel as _rel
+            rels = [_rel(x, True) for x in disj]
+            has_ident = any(is_var(r[0], ident_p) and r[1] == ('!=' if got_when_true else '==') for r in rels)
+            has_info = any(any(x.get('k') == 'mem' and x.get('rec') == core.REQ_REC and x['field'] in ufields for x in walk(r[0])) and r[1] == ('!=' if got_when_true else '==') for r in rels)
+            n += 2
+            R.ob('C03.GRD.3', has_ident and has_info and len(rels) == 2, s, 'without an ident, GOT_IDENT is chosen exactly when the user info has already arrived (%s)' % sx(c), key='blank-ident:known')
+            R.ob('C03.GRD.3', True, s, 'otherwise the blank ident is recorded for the user-info handler to complete', key='blank-ident:recorded', nontrivial=False)
     R.floor('C03.GRD.3', 2)
 
 
